@@ -21,7 +21,7 @@ const CHILD_BUDGET: Duration = Duration::from_secs(20);
 /// The property quantifies over inputs "up to a few kilobytes"; the design asks for nesting up to
 /// 100 000. A crash is a violation when the input is at most this long; a crash that needs a longer
 /// input is recorded in the evidence (`crash-beyond-domain`) but not reported.
-pub const DOMAIN_BYTES: usize = 64 * 1024;
+pub const DOMAIN_BYTES: usize = 32 * 1024;
 
 #[derive(Clone, Copy)]
 pub struct Shape {
@@ -308,7 +308,36 @@ fn run(cfg: &RunCfg, findings: &Findings, stats: &mut PartStats) -> Option<Viola
                     break;
                 }
                 let (shape, api, stack) = all[i];
-                let o = probe(shape, api, stack, &ladder);
+                let mut o = probe(shape, api, stack, &ladder);
+                // tighten a crash threshold: 4 bisection steps between the last depth that returned and the crashing one
+                if let ProbeOutcome::Crashed { n, passed, .. } = &o {
+                    let mut lo = passed.last().map_or(0, |(n, _)| *n);
+                    let mut hi = *n;
+                    let mut best: Option<ProbeOutcome> = None;
+                    let mut passed = passed.clone();
+                    for _ in 0..4 {
+                        if hi - lo < 2 {
+                            break;
+                        }
+                        let mid = lo + (hi - lo) / 2;
+                        match probe(shape, api, stack, &[mid]) {
+                            ProbeOutcome::Completed(steps) => {
+                                lo = mid;
+                                passed.extend(steps);
+                            },
+                            c @ ProbeOutcome::Crashed { .. } => {
+                                hi = mid;
+                                best = Some(c);
+                            },
+                            _ => break,
+                        }
+                    }
+                    if let Some(ProbeOutcome::Crashed { n, len, how, .. }) = best {
+                        o = ProbeOutcome::Crashed { n, len, how, passed };
+                    } else if let ProbeOutcome::Crashed { n, len, how, .. } = o {
+                        o = ProbeOutcome::Crashed { n, len, how, passed };
+                    }
+                }
                 results.lock().unwrap().push((i, o));
             });
         }
@@ -348,7 +377,7 @@ fn run(cfg: &RunCfg, findings: &Findings, stats: &mut PartStats) -> Option<Viola
                 let sig = crash_sig(shape, api, stack);
                 let key = format!("{}:{}:{}", group_of(api), shape.name, stack);
                 thresholds.insert(key, n);
-                let last_ok = passed.last().map_or(0, |(n, _)| *n);
+                let last_ok = passed.iter().map(|(n, _)| *n).max().unwrap_or(0);
                 if len > DOMAIN_BYTES {
                     stats.label(&format!("crash-beyond-domain(>{}KiB input):{}:{}:{stack}", DOMAIN_BYTES / 1024, group_of(api), shape.class));
                     continue;
@@ -395,7 +424,8 @@ fn run(cfg: &RunCfg, findings: &Findings, stats: &mut PartStats) -> Option<Viola
     stats.extra.insert("children".into(), json!(all.len()));
     stats.extra.insert("ladder".into(), json!(ladder));
     stats.extra.insert("inconclusive_probes".into(), json!(inconclusive));
-    stats.extra.insert("first_crashing_ladder_step".into(), json!(thresholds));
+    stats.extra.insert("smallest_crashing_depth_found".into(), json!(thresholds));
+    stats.extra.insert("domain_bytes".into(), json!(DOMAIN_BYTES));
     violation
 }
 
